@@ -216,6 +216,35 @@ def scenarios():
         idx.write()
     S["index_write"] = index_write
 
+    def switch_head(r):
+        # HEAD re-pointed at another branch (what checkout/switch do to the repository proper)
+        r.refs.set_symbolic_ref(b"HEAD", b"refs/heads/topic")
+    S["set_symbolic_ref(HEAD)"] = switch_head
+
+    def tag_annotated(r):
+        from dulwich import porcelain
+        porcelain.tag_create(r, b"v2", author=ID, message=b"second release", annotated=True, objectish=b"refs/heads/master",
+                             tag_time=600, tag_timezone=0, sign=False)
+    S["tag_create(annotated)"] = tag_annotated
+
+    def write_cg(r):
+        r.object_store.write_commit_graph()
+    S["write_commit_graph"] = write_cg
+
+    def write_midx(r):
+        r.object_store.write_midx()
+    S["write_midx"] = write_midx
+
+    def add_and_commit(r):
+        # the everyday sequence: a file in the work tree is staged, then committed
+        from dulwich import porcelain
+        with open(os.path.join(r.path, "newfile.txt"), "wb") as f:
+            f.write(b"work tree content\n" * 11)
+        porcelain.add(r, [os.path.join(r.path, "newfile.txt")])
+        porcelain.commit(r, message=b"staged and committed", author=ID, committer=ID, commit_timestamp=700, commit_timezone=0,
+                         author_timestamp=700, author_timezone=0, sign=False)
+    S["porcelain add+commit"] = add_and_commit
+
     def config_write(r):
         c = r.get_config()
         c.set((b"user",), b"name", b"x y")
@@ -469,6 +498,20 @@ def recover(snap, pre_refs, post_refs, pre_objs, any_ref_value=False):
             r.get_config()
         except Exception as e:
             return f"ConfigUnreadable:{type(e).__name__}"
+        # optional acceleration files: whatever is there must load
+        try:
+            cg = store.get_commit_graph()
+            if cg is not None:
+                for ent in cg.entries:
+                    pass
+        except Exception as e:
+            return f"CommitGraphUnreadable:{type(e).__name__}"
+        try:
+            mx = store.get_midx()
+            if mx is not None:
+                mx.object_offset(b"\0" * 20)
+        except Exception as e:
+            return f"MidxUnreadable:{type(e).__name__}"
         return None
     finally:
         r.close()
